@@ -84,6 +84,10 @@ pub struct Scenario {
     pub perm_ops: Vec<(usize, bool)>,
     pub env: EnvCfg,
     pub ops: Vec<HostOp>,
+    /// the fault-free reference of this scenario keeps these (search, call) budgets instead of
+    /// none: for programs that are endless or very long by design without them
+    #[serde(default)]
+    pub reference_budgets: Option<(usize, usize)>,
 }
 
 impl Scenario {
@@ -94,6 +98,7 @@ impl Scenario {
             program: program.to_string(),
             limits,
             perms: [None; 6],
+            reference_budgets: None,
             perm_ops: vec![],
             env: EnvCfg::default(),
             ops: standard_ops(),
